@@ -143,15 +143,24 @@ namespace nmtools::meta
                 return as_value_v<nmtools_list<index_type>>;
             } else if constexpr (is_index_array_v<shape_t>) {
                 [[maybe_unused]] constexpr auto B_DIM = bounded_size_v<shape_t>;
+                // a stride is a product of extents: it is not bounded by the per-axis maximum of a clipped extent
+                constexpr auto stride_vtype = [](){
+                    if constexpr (is_clipped_integer_v<index_type>) {
+                        return as_value_v<typename index_type::value_type>;
+                    } else {
+                        return as_value_v<index_type>;
+                    }
+                }();
+                using stride_index_type = type_t<decltype(stride_vtype)>;
                 if constexpr (DIM > 0) {
-                    using type = nmtools_array<index_type,DIM>;
+                    using type = nmtools_array<stride_index_type,DIM>;
                     return as_value_v<type>;
                 } else if constexpr (!is_fail_v<decltype(B_DIM)>) {
                     // TODO: provide macro nmtools_static_vector
-                    using type = utl::static_vector<index_type,B_DIM>;
+                    using type = utl::static_vector<stride_index_type,B_DIM>;
                     return as_value_v<type>;
                 } else {
-                    using type = nmtools_list<index_type>;
+                    using type = nmtools_list<stride_index_type>;
                     return as_value_v<type>;
                 }
                 #if 0
